@@ -5,6 +5,7 @@ go 1.23.0
 require (
 	github.com/anishathalye/porcupine v1.3.0
 	github.com/folbricht/desync v0.0.0
+	github.com/hanwen/go-fuse/v2 v2.2.0
 )
 
 require (
@@ -21,7 +22,6 @@ require (
 	github.com/google/uuid v1.3.0 // indirect
 	github.com/googleapis/enterprise-certificate-proxy v0.2.3 // indirect
 	github.com/googleapis/gax-go/v2 v2.8.0 // indirect
-	github.com/hanwen/go-fuse/v2 v2.2.0 // indirect
 	github.com/json-iterator/go v1.1.12 // indirect
 	github.com/klauspost/compress v1.16.4 // indirect
 	github.com/klauspost/cpuid/v2 v2.0.4 // indirect
